@@ -103,8 +103,14 @@ func runC05(c *Ctx, r *Report, tier string) {
 		var origins []string
 		okAll := true
 		envOK := litHas(true, "call:os.LookupEnv(call:(*Option).EnvKeyWithNamespace(P0))#1")
+		envVal := "call:os.LookupEnv(call:(*Option).EnvKeyWithNamespace(P0))#0"
 		for _, o := range c.originsOf(used, usedAt) {
-			t := o.Term
+			// a pre-initialised local (`v, ok := "", false; if key != "" { v, ok = LookupEnv(key) }`): the
+			// empty default is never used because every use is guarded by ok
+			t := strings.ReplaceAll(o.Term, `phi{"" | `+envVal+`}`, envVal)
+			for i, e := range o.Elems {
+				o.Elems[i] = strings.ReplaceAll(e, `phi{"" | `+envVal+`}`, envVal)
+			}
 			switch {
 			case t == "Option.Default(P0)":
 				origins = append(origins, "Option.Default")
